@@ -1159,6 +1159,21 @@ func (f *Frugal) validateTypedefs() error {
 				typedef.Name, typedef.Type.Name)
 		}
 	}
+	// A typedef which (transitively) aliases itself can never be resolved.
+	for _, typedef := range f.Typedefs {
+		seen := map[string]bool{typedef.Name: true}
+		for next := typedef.Type; next != nil && next.IncludeName() == ""; {
+			target, ok := f.typedefIndex[next.Name]
+			if !ok {
+				break
+			}
+			if seen[target.Name] {
+				return fmt.Errorf("Invalid alias %s, circular typedef", typedef.Name)
+			}
+			seen[target.Name] = true
+			next = target.Type
+		}
+	}
 	return nil
 }
 
